@@ -175,11 +175,12 @@ func (a *Act) frameCheckRef(st *State, c string, ref string, pos string) {
 		return // syntactically fresh object, not inside any loop
 	}
 	if a.hasMods {
-		goal := or(inMods(a.funcMods, c, ref), app(">", ref, a.allocE))
+		goal := or(inMods(a.funcMods, c, ref), app(">", ref, a.allocE), app("=", ref, "0"))
 		a.vc.oblige("frame", a.label+c, st.reach, goal, "write to "+c+" must be inside the function's modifies clause or fresh", pos)
 	}
 	for li := a.innermostLoop(); li != nil; li = li.parent {
-		goal := or(inMods(li.items, c, ref), app(">", ref, li.threshold))
+		// ref 0 is nil: nothing can be written there (the write itself carries a safe:nil / bounds obligation)
+		goal := or(inMods(li.items, c, ref), app(">", ref, li.threshold), app("=", ref, "0"))
 		a.vc.oblige("frame", fmt.Sprintf("%sloop%d:%s", a.label, li.ord, c), st.reach, goal, "write to "+c+" inside loop must be in the loop's modifies set or allocated during the loop", pos)
 	}
 }
